@@ -49,6 +49,8 @@ class Result:
         self.digest = w.k.digest(exclude_kinds)
         self.choices = list(w.k.choices)
         self.switches += w.k.switches
+        if w.k.clock_jumps:
+            self.faults['clock_jump'] = self.faults.get('clock_jump', 0) + w.k.clock_jumps
         if w.k.stalls:
             self.faults['thread_stall'] = self.faults.get('thread_stall', 0) + w.k.stalls
         self.sched = w.k.sched_sig.hexdigest()[:16]
